@@ -364,7 +364,24 @@ func vPermutations(n int) [][]int {
 // ---- observation ---------------------------------------------------------------------
 
 type vObserver struct {
-	s *store
+	s     *store
+	names map[hash.SHA256Hash]string // document-shelf key -> content name, valid for this one observation
+}
+
+// vDocStr: canonical rendering of a document, memoised on its JSON bytes (a pure function of them)
+var vDocStrMemo = map[string]string{}
+
+func vDocStr(d did.Document) string {
+	raw, err := json.Marshal(d)
+	if err != nil {
+		return vDocString(vRenderDoc(d, vNoNorm))
+	}
+	if r, ok := vDocStrMemo[string(raw)]; ok {
+		return r
+	}
+	r := vDocString(vRenderDoc(d, vNoNorm))
+	vDocStrMemo[string(raw)] = r
+	return r
 }
 
 func vNoNorm(x string) string { return x }
@@ -373,14 +390,18 @@ func vShort(h hash.SHA256Hash) string { return h.String()[:10] }
 
 func vContentName(d did.Document) string {
 	f := fnv.New64a()
-	f.Write([]byte(vDocString(vRenderDoc(d, vNoNorm))))
+	f.Write([]byte(vDocStr(d)))
 	return fmt.Sprintf("H%016x", f.Sum64())
 }
 
 // hashName names a document hash by the content it addresses (FNV-1a 64 of the canonical rendering of
 // the document on the document shelf) — the model does the same, so a merged document that is
 // byte-identical to a published one gets the same name on both sides.
-func (o *vObserver) hashName(h hash.SHA256Hash) string {
+func (o *vObserver) hashName(h hash.SHA256Hash) (name string) {
+	if n, ok := o.names[h]; ok {
+		return n
+	}
+	defer func() { o.names[h] = name }()
 	var d did.Document
 	var err error
 	_ = o.s.db.Read(context.Background(), func(tx stoabs.ReadTx) error {
@@ -408,7 +429,7 @@ func (o *vObserver) showDocMeta(doc did.Document, meta resolver.DocumentMetadata
 		upd = strconv.FormatInt(vNs(*meta.Updated), 10)
 	}
 	return fmt.Sprintf("ok doc=%s created=%d updated=%s hash=%s prev=%s src=[%s] deact=%v",
-		vDocString(vRenderDoc(doc, vNoNorm)), vNs(meta.Created), upd, o.hashName(meta.Hash), prev, strings.Join(src, ","), meta.Deactivated)
+		vDocStr(doc), vNs(meta.Created), upd, o.hashName(meta.Hash), prev, strings.Join(src, ","), meta.Deactivated)
 }
 
 func vErrName(err error) string {
@@ -436,6 +457,8 @@ func (o *vObserver) resolve(id did.DID, md *resolver.ResolveMetadata) (res strin
 	return o.showDocMeta(*doc, *meta)
 }
 
+var vRawName = map[string]string{} // raw document bytes -> content name (a pure function of the bytes)
+
 // history: HistorySinceVersion as "version:created:updated:contentname" per returned document
 func (o *vObserver) history(id did.DID, v int) (res string) {
 	defer func() {
@@ -449,10 +472,14 @@ func (o *vObserver) history(id did.DID, v int) (res string) {
 	}
 	var parts []string
 	for _, m := range h {
-		var d did.Document
-		name := "?unparsable"
-		if json.Unmarshal(m.Raw, &d) == nil {
-			name = vContentName(d)
+		name, ok := vRawName[string(m.Raw)]
+		if !ok {
+			var d did.Document
+			name = "?unparsable"
+			if json.Unmarshal(m.Raw, &d) == nil {
+				name = vContentName(d)
+			}
+			vRawName[string(m.Raw)] = name
 		}
 		parts = append(parts, fmt.Sprintf("%d:%d:%d:%s", m.Version, vNs(m.Created), vNs(m.Updated), name))
 	}
@@ -537,8 +564,10 @@ var vUnknownHash = hash.SHA256Sum([]byte("verif: occurs nowhere"))
 
 // vObserve prints the full canonical observable state of the store for the DIDs of the set.
 // Probe results are de-duplicated: each distinct result gets an index in order of first appearance.
-func vObserve(s *store, evs []vGenEvent, times []int64, dids map[string]did.DID, probes []vProbe) string {
-	obs := &vObserver{s: s}
+// lite = only what can depend on the store object's in-memory state (the conflicted cache) plus the latest version:
+// used after a restart, where the database is unchanged (fact storeStructFields: db handle, provider, cache).
+func vObserve(s *store, evs []vGenEvent, times []int64, dids map[string]did.DID, probes []vProbe, lite bool) string {
+	obs := &vObserver{s: s, names: map[hash.SHA256Hash]string{}}
 	var didKeys []string
 	for k := range dids {
 		didKeys = append(didKeys, k)
@@ -578,7 +607,7 @@ func vObserve(s *store, evs []vGenEvent, times []int64, dids map[string]did.DID,
 	if docs, err := (Finder{Store: s}).Find(resolver.IsActive()); err == nil {
 		for _, d := range docs {
 			nfound++
-			found[d.ID.String()] = vDocString(vRenderDoc(d, vNoNorm))
+			found[d.ID.String()] = vDocStr(d)
 		}
 	}
 	line = append(line, fmt.Sprintf("cc=%d dc=%d nconf=%d niter=%d nactive=%d iter=[%s]", cc, dc, nconf, len(iterOrder), nfound, strings.Join(iterOrder, ",")))
@@ -594,10 +623,24 @@ func vObserve(s *store, evs []vGenEvent, times []int64, dids map[string]did.DID,
 		probe("nil:", obs.resolve(id, nil))
 		probe("ad:", obs.resolve(id, &resolver.ResolveMetadata{AllowDeactivated: true}))
 		probe("nad:", obs.resolve(id, &resolver.ResolveMetadata{}))
-		for _, tm := range times {
+		if lite {
+			probe("conf:", get(conf, dk))
+			probe("iter:", get(iter, dk))
+			probe("active:", get(found, dk))
+			_, isConf := conf[dk]
+			line = append(line, fmt.Sprintf("conflicted=%v", isConf))
+			continue
+		}
+		var mine []int // this DID's events, in set order
+		for i, e := range evs {
+			if e.doc.ID.String() == dk {
+				mine = append(mine, i)
+			}
+		}
+		for ti, tm := range times { // labels carry the index into op.times
 			tt := vBase.Add(time.Duration(tm))
-			probe(fmt.Sprintf("t%d:", tm), obs.resolve(id, &resolver.ResolveMetadata{ResolveTime: &tt}))
-			probe(fmt.Sprintf("ta%d:", tm), obs.resolve(id, &resolver.ResolveMetadata{ResolveTime: &tt, AllowDeactivated: true}))
+			probe(fmt.Sprintf("t%d:", ti), obs.resolve(id, &resolver.ResolveMetadata{ResolveTime: &tt}))
+			probe(fmt.Sprintf("ta%d:", ti), obs.resolve(id, &resolver.ResolveMetadata{ResolveTime: &tt, AllowDeactivated: true}))
 		}
 		for i, e := range evs {
 			ref := e.tx.Ref
@@ -607,15 +650,17 @@ func vObserve(s *store, evs []vGenEvent, times []int64, dids map[string]did.DID,
 		}
 		for k, p := range probes {
 			md := &resolver.ResolveMetadata{AllowDeactivated: p.AD}
-			if p.H >= 0 && p.H < len(evs) {
-				h := evs[p.H].tx.PayloadHash
+			// an index >= 0 selects among THIS DID's events (index modulo their number); events of other DIDs are
+			// covered by the s<i>/h<i> probes above
+			if p.H >= 0 && len(mine) > 0 {
+				h := evs[mine[p.H%len(mine)]].tx.PayloadHash
 				md.Hash = &h
 			} else if p.H == -2 {
 				h := vUnknownHash
 				md.Hash = &h
 			}
-			if p.S >= 0 && p.S < len(evs) {
-				r := evs[p.S].tx.Ref
+			if p.S >= 0 && len(mine) > 0 {
+				r := evs[mine[p.S%len(mine)]].tx.Ref
 				md.SourceTransaction = &r
 			} else if p.S == -2 {
 				r := vUnknownHash
@@ -630,13 +675,7 @@ func vObserve(s *store, evs []vGenEvent, times []int64, dids map[string]did.DID,
 		probe("conf:", get(conf, dk))
 		probe("iter:", get(iter, dk))
 		probe("active:", get(found, dk))
-		nmine := 0
-		for _, e := range evs {
-			if e.doc.ID.String() == dk {
-				nmine++
-			}
-		}
-		for v := 0; v <= nmine+1; v++ {
+		for v := 0; v <= len(mine)+1; v++ {
 			probe(fmt.Sprintf("hist%d:", v), obs.history(id, v))
 		}
 		_, isConf := conf[dk]
@@ -738,7 +777,7 @@ func TestVerifC10(t *testing.T) {
 		b, _ := json.Marshal(op)
 		opsW.Write(b)
 		opsW.WriteByte('\n')
-		implW.WriteString(addErrs + vObserve(s, evs, times, dids, probes))
+		implW.WriteString(addErrs + vObserve(s, evs, times, dids, probes, false))
 		implW.WriteByte('\n')
 		// restart: a fresh store object on the same database must give the same answers (conflicted cache reload)
 		s2 := New(&storage.StaticKVStoreProvider{Store: db}).(*store)
@@ -746,7 +785,7 @@ func TestVerifC10(t *testing.T) {
 			t.Fatal(err)
 		}
 		opsW.WriteString(`{"op":"again"}` + "\n")
-		implW.WriteString(vObserve(s2, evs, times, dids, probes))
+		implW.WriteString(vObserve(s2, evs, times, dids, probes, true))
 		implW.WriteByte('\n')
 		db.Close(context.Background())
 		os.Remove(path)
